@@ -159,6 +159,56 @@ pub fn h_iter(n: usize, kind: u8, forget: bool, tab: [u8; 8]) {
     vend!();
 }
 
+/// Owning iterators over a cache whose VALUE type has no drop glue while the KEY
+/// type has (a shortcut keyed on `needs_drop::<V>()` alone must not skip the keys).
+/// kind: 3 drain, 4 into_iter, 5 into_keys, 6 into_values.
+pub fn h_iter_plain_value(n: usize, kind: u8) {
+    let mut c: LruCache<Key, u32, TabBuild> = LruCache::with_capacity_and_hasher(usize::MAX, 7, TabBuild { tab: tab_of(6) });
+    let mut i = 0;
+    while i < n {
+        let e = UnhingedEntry::new(Key::new(i as u8, 8 + i as u8), 100 + i as u32);
+        let entry = Entry::new(e, c.seal, c.seal.get().next);
+        c.current_size += entry.size;
+        c.insert_untracked(entry);
+        i += 1;
+    }
+    let (pat, steps) = sym_pattern(n);
+    let mut dq = Deque { lo: 0, hi: n };
+    let b = n + 2;
+    match kind {
+        3 => {
+            let mut d = c.drain();
+            drive(&mut d, &mut dq, pat, steps, b, |(k, v): &(Key, u32)| (Some(k.k), Some(k.id), Some((*v - 100) as u8)));
+            drop(d);
+            vassert!([C12], c.len() == 0 && c.current_size() == 0, "the cache is not empty after a drain was dropped");
+            drop(c);
+        }
+        4 => {
+            let mut it = c.into_iter();
+            drive(&mut it, &mut dq, pat, steps, b, |(k, v): &(Key, u32)| (Some(k.k), Some(k.id), Some((*v - 100) as u8)));
+            drop(it);
+        }
+        5 => {
+            let mut it = c.into_keys();
+            drive(&mut it, &mut dq, pat, steps, b, |k: &Key| (Some(k.k), Some(k.id), None));
+            drop(it);
+        }
+        _ => {
+            let mut it = c.into_values();
+            drive(&mut it, &mut dq, pat, steps, b, |v: &u32| (None, None, Some((*v - 100) as u8)));
+            drop(it);
+        }
+    }
+    vblock!([C06, C12], {
+        let mut i = 0;
+        while i < n {
+            vcheck!(drops(8 + i as u8) == 1, "[C06 C12 ] a key not consumed from an owning iterator was not dropped exactly once (plain-data values)");
+            i += 1;
+        }
+    });
+    vend!();
+}
+
 const CAP_IT: usize = 7;
 
 
@@ -170,6 +220,10 @@ harnesses! {
     into_iter_n3 [7] => h_iter(3, 4, false, tab_of(6)); //@ q=C12,C06,C20 t=C07 to=600
     into_keys_n3 [7] => h_iter(3, 5, false, tab_of(6)); //@ q=C12,C06 t=C07,C20 to=600
     into_values_n3 [7] => h_iter(3, 6, false, tab_of(6)); //@ q=C12,C06 t=C07,C20 to=600
+    plainv_drain_n3 [7] => h_iter_plain_value(3, 3); //@ q=C12,C06 to=600
+    plainv_into_iter_n3 [7] => h_iter_plain_value(3, 4); //@ q=C12,C06 to=600
+    plainv_into_keys_n2 [6] => h_iter_plain_value(2, 5); //@ q=C12,C06 to=600
+    plainv_into_values_n2 [6] => h_iter_plain_value(2, 6); //@ q=C12,C06 to=600
     iter_n0 [4] => h_iter(0, 0, false, tab_of(6)); //@ q=C12 to=600
     drain_n0 [4] => h_iter(0, 3, false, tab_of(6)); //@ q=C12 to=600
     into_iter_n0 [4] => h_iter(0, 4, false, tab_of(6)); //@ q=C12 to=600
